@@ -1,7 +1,7 @@
 CONSTANTS
-  N = 4
+  N = 2
   MaxFan = 2
-  KindSet <- KindsCyc3
+  KindSet <- KindsFail
   GenFans <- Fans01
   Budgets <- BudgetsOne
   MaxDepth = 3
@@ -12,10 +12,9 @@ CONSTANTS
   ShadowRejects = FALSE
   LeakBudgetFailure = FALSE
   LoopCapOff = FALSE
-  V6Set <- V6Off
-  DetachedFresh = FALSE
+  V6Set <- V6On
+  DetachedFresh = TRUE
   Emit = FALSE
 SPECIFICATION Spec
-INVARIANTS TypeOK WithinBudget OverBudgetIsPrivate ShadowEqualsOff EnforceIsPrefix LocalBelowW OneLedgerPerTree
-PROPERTIES Terminates MeasureDecreases ReplyIsFinal
+INVARIANTS TypeOK WithinBudget
 CHECK_DEADLOCK FALSE
